@@ -118,6 +118,11 @@ func refResolve(u *mvssim.Universe, bl map[string]string, p, query string) (ver 
 		return pick(func(v string) bool { return cmp(v, query[1:]) < 0 })
 	case semver.IsValid(query) && semver.Canonical(query) == query:
 		return pick(func(v string) bool { return cmp(v, query) == 0 })
+	case query == "main" || strings.HasPrefix(query, "br"):
+		if v, ok := u.RefVersion(p, query); ok {
+			return v, true, false
+		}
+		return "", true, true // no such ref
 	}
 	return "", false, false
 }
@@ -252,6 +257,9 @@ func exec(c Case) (v ev.Verdict) {
 			where = fmt.Sprintf("op %d (get %s)", n, full)
 		}
 		v.Classes = append(v.Classes, "op:"+op.Kind)
+		if os.Getenv("C11_DEBUG") != "" {
+			fmt.Printf("DEBUG %s\n  reqs=%v\n  bl=%v\n  res=%v err=%v\n", where, reqs, bl, res, err)
+		}
 
 		var p, resolved string
 		decided, wantErr := false, false
@@ -312,8 +320,8 @@ func exec(c Case) (v ev.Verdict) {
 		case "get":
 			cur, present := bl[p]
 			if !decided {
-				// prefix / branch query: the statement does not define the resolved version and it
-				// cannot be read off the result reliably; only the generic relations below apply.
+				// prefix query: the statement does not define the resolved version and it cannot
+				// be read off the result reliably; only the generic relations below apply.
 				v.Classes = append(v.Classes, "undecided-query")
 				break
 			}
